@@ -5,6 +5,7 @@ package main
 import (
 	"encoding/json"
 	"math/rand"
+	"os"
 	"sort"
 
 	"github.com/welllog/golib/mapz"
@@ -250,4 +251,10 @@ func gen(rng *rand.Rand) json.RawMessage {
 	return b
 }
 
-func main() { conc.Main("SafeKV", factory, gen) }
+func main() {
+	if len(os.Args) > 1 && os.Args[1] == "bulk" {
+		bulkMain(os.Args[2:])
+		return
+	}
+	conc.Main("SafeKV", factory, gen)
+}
